@@ -214,6 +214,29 @@ pub fn run_pin(args: &Args) -> (u64, u64) {
                     h2[bit / 8] ^= 1 << (bit % 8);
                     pin_verify_event(&mut tr, *pin, seed, &ss, &cs, &h2);
                 }
+                // changes in several bytes at once (equal masks, swapped bytes, complemented tail), random hashes
+                for j in 0..6usize {
+                    let mut h2 = h;
+                    let (a, c) = ((k + j) % 20, (k + 7 * j + 3) % 20);
+                    if a != c {
+                        h2[a] ^= 1 << (j % 8);
+                        h2[c] ^= 1 << (j % 8);
+                        pin_verify_event(&mut tr, *pin, seed, &ss, &cs, &h2);
+                        let mut h3 = h;
+                        h3.swap(a, c);
+                        if h3 != h {
+                            pin_verify_event(&mut tr, *pin, seed, &ss, &cs, &h3);
+                        }
+                    }
+                }
+                for _ in 0..(if thorough { 40 } else { 12 }) {
+                    let mut junk = [0u8; 20];
+                    rng2.fill_bytes(&mut junk);
+                    pin_verify_event(&mut tr, *pin, seed, &ss, &cs, &junk);
+                }
+                let mut h4 = h;
+                for x in h4.iter_mut().skip(16) { *x = !*x; }
+                pin_verify_event(&mut tr, *pin, seed, &ss, &cs, &h4);
                 // right hash, wrong pin / seed / salts
                 pin_verify_event(&mut tr, pin.wrapping_add(1), seed, &ss, &cs, &h);
                 pin_verify_event(&mut tr, *pin, seed.wrapping_add(1), &ss, &cs, &h);
